@@ -38,7 +38,10 @@ ASSUMPTIONS = [
     "pressure_steps_3e7, pressure_nonincreasing_up_to_3e7) are about the model over the reals, the rounding of the code is observed",
 ]
 TRUSTED_EXTRA = ["the AST normaliser that compares the two Python copies (harness/props/C19.py: _norm_ast); a difference of the "
-                 "ASTs is not a violation, the bitwise differential on every generated input decides"]
+                 "ASTs is not a violation, the bitwise differential on every generated input decides",
+                 "the source translator harness/pytrans.py (its reading of numpy: element-wise arithmetic, Boolean-mask stores, loops over a concrete "
+                 "range unrolled, table lookups by an index whose finite value set is checked against the table) — exercised by the "
+                 "Float run of the translated source next to the real functions (source_tie in the evidence)"]
 
 NAMES = ("us_std_atm_pressure_from_altitude", "us_std_atm_altitude_from_pressure")
 # the enclosures proved in lean/NssVerif/Props/C19.lean (boundary_mismatch_enclosures), j = 1..7
@@ -92,7 +95,11 @@ def regen():
               "end Gen.AtmConsts", ""]
     text = "\n".join(lines)
     changed = write_if_changed(GEN, text)
-    return {"Gen/AtmConsts.lean": {"rewritten": changed, "sha256": hashlib.sha256(text.encode()).hexdigest()[:16], "layers": n}}
+    out = {"Gen/AtmConsts.lean": {"rewritten": changed, "sha256": hashlib.sha256(text.encode()).hexdigest()[:16], "layers": n}}
+    # source tie: both copies of the two functions -> lean/NssVerif/Gen/Src/C19.lean (bridging theorems `C19.src_*`)
+    import srctie
+    out.update(srctie.regen("C19"))
+    return out
 
 
 # --------------------------------------------------------------------------- AST identity of the two copies
@@ -311,6 +318,16 @@ def run(ctx: Ctx):
     bad = np.nonzero(~(rel_close(zm, zA, 1e-12) | (np.abs(zm - zA) <= 1e-12)))[0]
     for k in bad[:3]:
         ctx.disagree("C19.altitude_from_pressure", {"P": float(PA[k]), "P_hex": f2h(PA[k]), "model": float(zm[k]), "code": float(zA[k])})
+    # ---- source tie: both translated copies at Float next to the real functions (every boundary-stream input, a sample of the
+    # structured stream); same tolerance as model-vs-code
+    import srctie
+    finf = lambda k: np.full(k, np.inf)
+    ks = np.concatenate([np.arange(min(len(z_bound), len(z_all))), rng.choice(len(z_all), size=min(20000, len(z_all)), replace=False)])
+    srctie.compare(ctx, "C19", "pressureFromAltitudeA", [z_all[ks], finf(len(ks))], [PA[ks]], rtol=1e-12)
+    srctie.compare(ctx, "C19", "altitudeFromPressureA", [PA[ks], finf(len(ks))], [zA[ks]], rtol=1e-12, atol=1e-12)
+    kb = ks[:4000]
+    srctie.compare(ctx, "C19", "pressureFromAltitudeB", [z_all[kb], finf(len(kb))], [PB[kb]], rtol=1e-12)
+    srctie.compare(ctx, "C19", "altitudeFromPressureB", [PA[kb], finf(len(kb))], [zB[kb]], rtol=1e-12, atol=1e-12)
     ctx.nontrivial.update(("z", k) for k in range(len(np.unique(bits(z_all)))))  # measured number of distinct altitudes
     ctx.case(None, {"op": "z->P->z", "z": float(z_all[0]), "P": float(PA[0]), "z_back": float(zA[0]), "P_model": float(Pm[0])}, n=len(z_all))
 
@@ -346,6 +363,20 @@ def run(ctx: Ctx):
     bad = np.nonzero(~rel_close(Qm, QA, 1e-12))[0]
     for k in bad[:3]:
         ctx.disagree("C19.pressure_from_altitude", {"z": float(ZA[k]), "z_hex": f2h(ZA[k]), "model": float(Qm[k]), "code": float(QA[k])})
+    ks = np.concatenate([np.arange(len(p_bound)), rng.choice(len(p_all), size=min(20000, len(p_all)), replace=False)])
+    srctie.compare(ctx, "C19", "altitudeFromPressureA", [p_all[ks], finf(len(ks))], [ZA[ks]], rtol=1e-12, atol=1e-12)
+    srctie.compare(ctx, "C19", "pressureFromAltitudeA", [ZA[ks], finf(len(ks))], [QA[ks]], rtol=1e-12)
+    kb = ks[:4000]
+    srctie.compare(ctx, "C19", "altitudeFromPressureB", [p_all[kb], finf(len(kb))], [ZB[kb]], rtol=1e-12, atol=1e-12)
+    srctie.compare(ctx, "C19", "pressureFromAltitudeB", [ZA[kb], finf(len(kb))], [QB[kb]], rtol=1e-12)
+    # the end cases z = +inf <-> P = 0 and the malformed inputs of stream (c), through the translated source
+    with np.errstate(all="ignore"):
+        ez = np.array([np.inf, 0.0, 120.0, 1e6, -1.0, np.nan])
+        ep = np.array([0.0, Ptop, 1.0, np.inf, -1.0, np.nan, 5e-324])
+        srctie.compare(ctx, "C19", "pressureFromAltitudeA", [ez, finf(len(ez))], [fA_p(ez)], rtol=1e-12)
+        srctie.compare(ctx, "C19", "pressureFromAltitudeB", [ez, finf(len(ez))], [fB_p(ez)], rtol=1e-12)
+        srctie.compare(ctx, "C19", "altitudeFromPressureA", [ep, finf(len(ep))], [fA_z(ep)], rtol=1e-12, atol=1e-12)
+        srctie.compare(ctx, "C19", "altitudeFromPressureB", [ep, finf(len(ep))], [fB_z(ep)], rtol=1e-12, atol=1e-12)
     ctx.nontrivial.update(("P", k) for k in range(len(np.unique(bits(p_all)))))  # measured number of distinct pressures
     ctx.case(None, {"op": "P->z->P", "P": float(p_all[0]), "z": float(ZA[0]), "P_back": float(QA[0]), "z_model": float(Zm[0])}, n=len(p_all))
     # which layers / branches were hit (model's layer choice)
